@@ -184,6 +184,24 @@ def check_product(case):
         if out.true("timesQsparse(shared real-part object):shape", C2.shape == (m, n, 4), f"{C2.shape}"):
             out.le("timesQsparse(shared real-part object):second call answers for ITS planes (conj(A) B)",
                    float(np.max(np.abs(C2 - ref.exact_to_float(Ce2)) / b2)), 1.0)
+    # the SAME object as both operands (A A for square A: powers, Gram-type products): one argument aliases the other
+    if m == k:
+        Ce3, Se3 = ref.mat_mul_exact(A, A)
+        b3 = (4 * k + 4) * 4 * U_ * ref.exact_to_float(Se3) + 1e-300
+        Aq_, As_, pl_, pls_ = Q(A), S(A), planes(A), planes(A, True)
+        same = {"quat_matmat(dense X, the same X)": (lambda: u_().quat_matmat(Aq_, Aq_)),
+                "quat_matmat(sparse X, the same X)": (lambda: u_().quat_matmat(As_, As_)),
+                "sparse X @ the same X": (lambda: As_ @ As_),
+                "timesQsparse(dense planes of X, the same plane objects)": (lambda: np.stack(u_().timesQsparse(*pl_, *pl_), axis=-1)),
+                "timesQsparse(sparse planes of X, the same plane objects)": (lambda: np.stack(u_().timesQsparse(*pls_, *pls_), axis=-1))}
+        for nm, fn in same.items():
+            ok3, r3 = out.call(nm, fn)
+            if ok3:
+                C3 = to_float(r3)
+                if out.true(nm + ":shape", C3.shape == (m, m, 4), f"{C3.shape}"):
+                    out.le(nm + ":equals X X", float(np.max(np.abs(C3 - ref.exact_to_float(Ce3)) / b3)), 1.0)
+        out.true("X X with one object as both operands:operand unchanged",
+                 np.array_equal(to_float(Aq_), A) and np.array_equal(to_float(As_), A), "the operand was modified")
     # 1-D quaternion vectors (numpy's own vector type): the dense product follows numpy's matmul shapes on this tree.
     # The documented domain is 2-D ("vectors are matrices with one column"), so a rejection is accepted - a value
     # that is returned must be the Hamilton product.
